@@ -26,8 +26,7 @@ namespace glm
 	GLM_FUNC_QUALIFIER vec<L, T, Q> cot(vec<L, T, Q> const& x)
 	{
 		GLM_STATIC_ASSERT(std::numeric_limits<T>::is_iec559 || GLM_CONFIG_UNRESTRICTED_FLOAT, "'cot' only accept floating-point inputs");
-		T const pi_over_2 = static_cast<T>(3.1415926535897932384626433832795 / 2.0);
-		return detail::functor1<vec, L, T, T, Q>::call(tan, pi_over_2 - x);
+		return static_cast<T>(1) / detail::functor1<vec, L, T, T, Q>::call(tan, x);
 	}
 
 	// asec
